@@ -1,9 +1,266 @@
-"""E2 witness engine (compile-pass / compile-fail families). Filled in below."""
+"""E2 witness engine: generated client programs that must / must not type-check (or borrow-check)
+against /repo's current working tree. rustc is the decision procedure; nothing is ever run."""
+import json, os, shutil, subprocess, time, hashlib
+from .engine import Violation
+from . import facts as factsmod
+
+VERIF = factsmod.VERIF
+CACHE = os.path.join(VERIF, '.cache')
 FAMILIES = {}
+
+CLASSES = {
+    'trait': {'E0277', 'E0271', 'E0282', 'E0283', 'E0284', 'E0599', 'E0275', 'E0308'},
+    'borrow': {'E0499', 'E0502', 'E0505', 'E0506', 'E0597', 'E0716', 'E0521', 'E0503', 'E0515', 'E0713', 'E0712'},
+    'privacy': {'E0451', 'E0603', 'E0616', 'E0624', 'E0423', 'E0639'},
+    'unsafe': {'E0133'},
+    'macro': {'MACRO'},
+    'mismatch': {'E0308', 'E0271'},
+}
+
+
+class W:
+    """One witness program."""
+
+    def __init__(self, key, code, expect, cls=None, note=''):
+        self.key = key          # stable key (no line numbers)
+        self.code = code
+        self.expect = expect    # 'compile' | 'fail'
+        self.cls = cls          # error class for 'fail'
+        self.note = note
+
+
+def family(fid, props, floor, doc):
+    def deco(fn):
+        FAMILIES[fid] = Fam(fid, props, floor, doc, fn)
+        return fn
+    return deco
+
+
+class Fam:
+    def __init__(self, fid, props, floor, doc, gen):
+        self.id = fid
+        self.props = props
+        self._floor = floor
+        self.doc = doc
+        self.gen = gen
+
+    def run(self, ctx, tier, seed):
+        repo = ctx.repo or factsmod.REPO
+        ws, exhaustive = self.gen(tier, seed)
+        res = check_witnesses(self.id, ws, repo)
+        floor = self._floor.get(tier, 0) if isinstance(self._floor, dict) else self._floor
+        viol = []
+        for w, verdict, detail in res:
+            if w.expect == 'compile' and verdict != 'accepted':
+                viol.append(Violation(self.id, w.key + '/rejected', 'witness:' + w.key,
+                                      'conflict-free twin program is rejected by the compiler (%s): %s' % (detail.get('codes'), w.note), {'code': w.code, 'rustc': detail.get('msg', '')[:1500]}))
+            if w.expect == 'fail' and verdict == 'accepted':
+                viol.append(Violation(self.id, w.key + '/accepted', 'witness:' + w.key,
+                                      'program that must be rejected (%s) compiles: %s' % (w.cls, w.note), {'code': w.code}))
+            if w.expect == 'fail' and verdict == 'other-error':
+                viol.append(Violation(self.id, w.key + '/wrong-error', 'witness:' + w.key,
+                                      'program is rejected, but not for the expected reason (%s; got %s): the witness no longer exercises the rule: %s' % (w.cls, detail.get('codes'), w.note), {'code': w.code, 'rustc': detail.get('msg', '')[:1500]}))
+        if len(ws) < floor:
+            viol.append(Violation(self.id, 'below-floor', '-', 'witness family generated %d programs, fewer than %d' % (len(ws), floor)))
+        return {'programs': len(ws), 'keys': [w.key for w in ws], 'floor': floor, 'violations': viol, 'doc': self.doc,
+                'samples': ['%s: %s [%s]' % (self.id, w.key, w.expect + ('/' + w.cls if w.cls else '')) for w in ws[:3]],
+                'exhaustive': exhaustive}
+
+
+CARGO_TOML = '''[package]
+name = "witness"
+version = "0.0.0"
+edition = "2021"
+
+[lib]
+path = "src/lib.rs"
+
+[dependencies]
+brood = { path = "%s", features = ["serde", "rayon"] }
+rayon = "1"
+serde = { version = "1", default-features = false, features = ["alloc"] }
+
+[workspace]
+'''
+
+
+def _crate_dir(name):
+    return os.path.join(CACHE, 'witness', name)
+
+
+_DEPS = {}
+
+
+def _deps(repo):
+    """Build brood (current working tree of `repo`, hooks on, all features) and the other dependencies
+    once through cargo; return (deps_dir, {crate: rmeta path})."""
+    if repo in _DEPS:
+        return _DEPS[repo]
+    d = _crate_dir('deps')
+    os.makedirs(os.path.join(d, 'src'), exist_ok=True)
+    with open(os.path.join(d, 'Cargo.toml'), 'w') as f:
+        f.write(CARGO_TOML % repo)
+    shutil.copy(os.path.join(repo, 'Cargo.lock'), os.path.join(d, 'Cargo.lock'))
+    os.makedirs(os.path.join(d, '.cargo'), exist_ok=True)
+    with open(os.path.join(d, '.cargo', 'config.toml'), 'w') as f:
+        f.write('[net]\noffline = true\n')
+    with open(os.path.join(d, 'src', 'lib.rs'), 'w') as f:
+        f.write('// deps only\n')
+    env = dict(os.environ)
+    env['CARGO_NET_OFFLINE'] = 'true'
+    env['RUSTFLAGS'] = '--cfg brood_verif -Awarnings'
+    tag = '' if repo == '/repo' else '-' + hashlib.sha1(repo.encode()).hexdigest()[:8]
+    env['CARGO_TARGET_DIR'] = os.path.join(CACHE, 'target-witness' + tag)
+    env.pop('RUSTC_WORKSPACE_WRAPPER', None)
+    p = subprocess.run(['cargo', 'check', '--offline', '--message-format=json', '--lib'], cwd=d, env=env,
+                       stdout=subprocess.PIPE, stderr=subprocess.PIPE, text=True)
+    arts = {}
+    errors = []
+    for line in p.stdout.splitlines():
+        try:
+            m = json.loads(line)
+        except Exception:
+            continue
+        if m.get('reason') == 'compiler-artifact':
+            n = m['target']['name']
+            for fn in m.get('filenames', []):
+                if fn.endswith('.rmeta'):
+                    arts[n.replace('-', '_')] = fn
+        if m.get('reason') == 'compiler-message' and m['message'].get('level') == 'error':
+            errors.append(m['message'].get('rendered', '')[:1500])
+    if p.returncode != 0 or 'brood' not in arts:
+        raise RuntimeError('witness dependencies (brood with hooks, all features) failed to build:\n%s\n%s' % ('\n'.join(errors)[:4000], p.stderr[-2000:]))
+    deps_dir = os.path.dirname(arts['brood'])
+    _DEPS[repo] = (deps_dir, arts)
+    return _DEPS[repo]
+
+
+def _rustc_shard(shard_dir, items, repo):
+    """items: list of (global index, W). Returns {index: [(code, rendered)]}, crate_errors."""
+    deps_dir, arts = _deps(repo)
+    if os.path.isdir(shard_dir):
+        shutil.rmtree(shard_dir)
+    os.makedirs(shard_dir)
+    lib = ['#![allow(warnings)]']
+    for gi, w in items:
+        mod = 'w_%05d' % gi
+        lib.append('mod %s;' % mod)
+        with open(os.path.join(shard_dir, mod + '.rs'), 'w') as f:
+            f.write(w.code)
+    with open(os.path.join(shard_dir, 'lib.rs'), 'w') as f:
+        f.write('\n'.join(lib) + '\n')
+    cmd = ['rustc', '--edition=2021', '--crate-type', 'lib', '--crate-name', 'witness', '--emit=metadata',
+           '--out-dir', os.path.join(shard_dir, 'out'), '-L', 'dependency=' + deps_dir, '--error-format=json', '-Awarnings',
+           '--cap-lints', 'allow']
+    for n in ('brood', 'rayon', 'serde'):
+        if n in arts:
+            cmd += ['--extern', '%s=%s' % (n, arts[n])]
+    cmd.append(os.path.join(shard_dir, 'lib.rs'))
+    p = subprocess.run(cmd, stdout=subprocess.PIPE, stderr=subprocess.PIPE, text=True)
+    per = {}
+    crate_errors = []
+    for line in p.stderr.splitlines():
+        try:
+            msg = json.loads(line)
+        except Exception:
+            continue
+        if msg.get('level') != 'error':
+            continue
+        code = (msg.get('code') or {}).get('code')
+        text = msg.get('message', '')
+        if code is None:
+            if 'no rules expected' in text or 'unexpected end of macro' in text or 'unexpected token' in text:
+                code = 'MACRO'
+            elif text.startswith('aborting due to') or text.startswith('could not compile'):
+                continue
+            else:
+                code = 'NOCODE:' + text[:60]
+        allf = []
+
+        def walk(sp, acc):
+            acc.append(sp['file_name'])
+            if sp.get('expansion') and sp['expansion'].get('span'):
+                walk(sp['expansion']['span'], acc)
+        for sp in msg.get('spans', []):
+            walk(sp, allf)
+        hit = False
+        for fn in allf:
+            base = os.path.basename(fn)
+            if base.startswith('w_') and base.endswith('.rs'):
+                per.setdefault(int(base[2:-3]), []).append((code, msg.get('rendered', '')[:1500]))
+                hit = True
+                break
+        if not hit:
+            crate_errors.append('%s %s' % (code, msg.get('rendered', '')[:800]))
+    shutil.rmtree(os.path.join(shard_dir, 'out'), ignore_errors=True)
+    return per, crate_errors
+
+
+def check_witnesses(fam, ws, repo):
+    """Returns list of (W, verdict, detail) with verdict in accepted | rejected | other-error.
+    Programs are grouped by expected outcome class (so that an early type error cannot mask a borrow
+    error), sharded, and checked by parallel rustc invocations against the once-built dependencies."""
+    from concurrent.futures import ThreadPoolExecutor
+    _deps(repo)
+    workers = max(2, min(14, (os.cpu_count() or 4) - 2))
+    groups = {}
+    for gi, w in enumerate(ws):
+        g = 'pass' if w.expect == 'compile' else w.cls
+        groups.setdefault(g, []).append((gi, w))
+    jobs = []
+    for g, items in sorted(groups.items()):
+        per_shard = max(3, -(-len(items) // workers))
+        for k in range(0, len(items), per_shard):
+            jobs.append((g, k // per_shard, items[k:k + per_shard]))
+    base = os.path.join(CACHE, 'witness', '%s-%d' % (fam, os.getpid()))
+    results = {}
+
+    def run(job):
+        g, k, items = job
+        return job, _rustc_shard(os.path.join(base, '%s-%d' % (g, k)), items, repo)
+    with ThreadPoolExecutor(max_workers=workers) as ex:
+        for job, (per, crate_errors) in ex.map(run, jobs):
+            g, k, items = job
+            for gi, w in items:
+                results[gi] = (per.get(gi, []), crate_errors)
+    out = []
+    suspicious = []
+    for gi, w in enumerate(ws):
+        errs, crate_errors = results[gi]
+        verdict, detail = _verdict(w, errs)
+        bad = (w.expect == 'compile' and verdict != 'accepted') or (w.expect == 'fail' and verdict != 'rejected')
+        if bad or crate_errors:
+            suspicious.append(gi)
+        out.append([w, verdict, detail])
+    # anything suspicious (or sharing a shard with an unattributable error) is re-checked alone
+    def run1(gi):
+        per, ce = _rustc_shard(os.path.join(base, 'single-%d' % gi), [(gi, ws[gi])], repo)
+        return gi, per.get(gi, []) + [('NOCODE:crate', x) for x in ce]
+    if suspicious:
+        with ThreadPoolExecutor(max_workers=workers) as ex:
+            for gi, errs in ex.map(run1, suspicious):
+                verdict, detail = _verdict(ws[gi], errs)
+                out[gi][1], out[gi][2] = verdict, detail
+    shutil.rmtree(base, ignore_errors=True)
+    return [tuple(x) for x in out]
+
+
+def _verdict(w, errs):
+    codes = sorted({c for c, _ in errs})
+    detail = {'codes': codes, 'msg': '\n'.join(m for _, m in errs[:3])}
+    if not errs:
+        return 'accepted', detail
+    if w.expect == 'compile':
+        return 'rejected', detail
+    want = CLASSES[w.cls]
+    if any(c in want for c in codes):
+        return 'rejected', detail
+    return 'other-error', detail
 
 
 def run_families(ctx, pid, tier, seed):
     out = []
+    from . import families  # noqa: registers
     for fid, fam in sorted(FAMILIES.items()):
         if pid in fam.props:
             out.append((fid, fam.run(ctx, tier, seed)))
